@@ -122,6 +122,8 @@ type World struct {
 	Halt *HaltInfo
 	// Trace is the list of events that led here (for replay files).
 	Trace []string
+	// Devs are the tags of the deviation events applied on the way here.
+	Devs []string
 	// Events emitted since the last call of TakeEvents (block + tx events in order).
 	events []abci.Event
 }
@@ -343,6 +345,7 @@ func (w *World) Fork() *World {
 	n := *w
 	n.Ctx = cc.WithEventManager(sdk.NewEventManager())
 	n.Trace = append([]string(nil), w.Trace...)
+	n.Devs = append([]string(nil), w.Devs...)
 	n.events = nil
 	n.Halt = w.Halt
 	return &n
